@@ -101,6 +101,18 @@ def explore(ctx):
                 if dashed:
                     c['sweeten'] = [('u2d',)]
                     c['savorize'] = [('d2u',)]
+        strl0 = [c['name'] for c in spec if c['kind'] in ('str', 'userstring', 'yatimlstring')
+                 and not c.get('init_raises')]
+        if strl0 and rng.random() < 0.4:
+            # a class whose attribute is a mapping with string-like keys (checked again by the owner's
+            # constructor after the keys were built)
+            hp = [dict(name='named', type=('map', rng.choice(['dict', 'mapping', 'mutablemapping']),
+                                           ('cls', rng.choice(strl0)),
+                                           rng.choice([('int',), ('str',), ('seq', 'list', ('float',))]))),
+                  dict(name='label', type=('str',), default='x')]
+            spec.append(dict(name='KeyHolder', bases=[], registered=True, kind='plain', params=hp, all_params=hp,
+                             extra=False, abstract=None, define_init=True))
+            cands = [('cls', 'KeyHolder')] * 4 + list(cands)
         try:
             model = CM.Model(spec)
             cands = [t for t in cands if unambiguous_type(model, t)]
@@ -159,6 +171,56 @@ def explore(ctx):
                 'raises ' + err if err else 'gives {!r}'.format(back), v)[:500],
                 dict(desc, key='roundtrip:' + first_difference(v, back, model, text)[:80], text=text[:800],
                      loaded=repr(back)[:600], error=err))
+    explore_chains(ctx, yaml, yatiml)
+
+
+def explore_chains(ctx, yaml, yatiml):
+    """three registered levels A <- B <- C, each adding a required attribute; A (sometimes B) converts a
+    unit on the way out and back on the way in (inverse hooks that are NOT idempotent)"""
+    rng = ctx.rng
+    P = lambda nm, t, **kw: dict(name=nm, type=t, **kw)   # noqa: E731
+    for _ in range(ctx.budget(40, 600)):
+        pa = [P('length', ('int',))]
+        pb = pa + [P('width', ('int',))]
+        pc = pb + [P('label', ('str',))]
+
+        def plain(name, bases, params, **kw):
+            return dict(name=name, bases=bases, registered=True, kind='plain', params=params, all_params=params,
+                        extra=False, abstract=None, define_init=True, **kw)
+        a = plain('Alpha', [], pa, sweeten=[('scale', 'length', 1000)], savorize=[('unscale', 'length', 1000)])
+        b = plain('Beta', ['Alpha'], pb)
+        if rng.random() < 0.5:
+            b['sweeten'] = [('scale', 'width', 10)]
+            b['savorize'] = [('unscale', 'width', 10)]
+        c = plain('Gamma', ['Beta'], pc)
+        if rng.random() < 0.3:
+            c['sweeten'] = [('u2d',)]
+            c['savorize'] = [('d2u',)]
+        spec = [a, b, c]
+        try:
+            model = CM.Model(spec)
+            cls = model.classes[rng.choice(['Alpha', 'Beta', 'Gamma', 'Gamma'])]
+            kw = dict(length=rng.randint(0, 50), width=rng.randint(0, 50), label=rng.choice(['x', '1', 'true']))
+            import inspect
+            names = [n for n in inspect.getfullargspec(cls.__init__).args if n != 'self']
+            v = cls(**{k: kw[k] for k in names})
+            regs = list(model.registered)
+            rng.shuffle(regs)
+            dumps = yatiml.dumps_function(*regs)
+            load = yatiml.load_function(model.classes['Alpha'], *regs)
+            text = dumps(v)
+            back = load(text)
+            ok = CM.val_sexp(back, model) == CM.val_sexp(v, model)
+            err = None
+        except Exception as e:  # noqa
+            ok, err, back, text = False, '{}: {}'.format(type(e).__name__, str(e)[:200]), None, ''
+        ctx.case(('chain', repr(v) if err is None else err), nontrivial=True)
+        ctx.count('chain_roundtrips')
+        if not ok:
+            ctx.violation('load(dumps(v)) {} for v = {!r} (three-level hierarchy with inverse unit-converting '
+                          'hooks)'.format('raises ' + err if err else 'gives {!r}'.format(back), v)[:500],
+                          dict(key='roundtrip-chain:' + type(v).__name__, classes=model.source[-2500:],
+                               text=text[:600], loaded=repr(back)[:300], error=err))
 
 
 def all_dicts(v, acc, seen):
